@@ -28,6 +28,7 @@ import (
 	authsigning "github.com/cosmos/cosmos-sdk/x/auth/signing"
 	authtypes "github.com/cosmos/cosmos-sdk/x/auth/types"
 	banktypes "github.com/cosmos/cosmos-sdk/x/bank/types"
+	govtypes "github.com/cosmos/cosmos-sdk/x/gov/types"
 	stakingtypes "github.com/cosmos/cosmos-sdk/x/staking/types"
 	"github.com/ethereum/go-ethereum/common"
 	"github.com/evmos/evmos/v16/encoding"
@@ -445,6 +446,39 @@ func (d *feesDriver) call(e BEvent, args map[string]interface{}) error {
 			return err
 		}
 		return k.DelegationKeeper.DelegateTo(ctx, &delegationtypes.DelegationOrUndelegationParams{ClientChainID: LzID, Action: assetstypes.DelegateTo, AssetsAddress: aaddr, OperatorAddress: w.Op(o), StakerAddress: saddr, OpAmount: x})
+	case "UpdateParams":
+		// MsgUpdateParams of x/feedistribution (community tax) and x/exomint (epoch reward), authority = the gov module
+		// account, dispatched through the app's message service router to the modules' real msg servers.
+		mp := d.fc.ModelPrec
+		tax := scaleRate(e.big("tax"), mp)
+		reward := new(big.Int).Mul(e.big("reward"), d.su.Scale)
+		args["tax"], args["reward"] = NB(tax), NB(reward)
+		authority := authtypes.NewModuleAddress(govtypes.ModuleName).String()
+		dp := k.DistrKeeper.GetParams(ctx)
+		dp.CommunityTax = sdkmath.LegacyNewDecFromBigIntWithPrec(tax, 18)
+		dmsg := &distrtypes.MsgUpdateParams{Authority: authority, Params: dp}
+		if err := dmsg.ValidateBasic(); err != nil {
+			return err
+		}
+		h := k.MsgServiceRouter().Handler(dmsg)
+		if h == nil {
+			return fmt.Errorf("no handler for %T", dmsg)
+		}
+		if _, err := h(ctx, dmsg); err != nil {
+			return err
+		}
+		xp := k.ExomintKeeper.GetParams(ctx)
+		xp.EpochReward = sdkmath.NewIntFromBigInt(reward)
+		xmsg := &exominttypes.MsgUpdateParams{Authority: authority, Params: xp}
+		if err := xmsg.ValidateBasic(); err != nil {
+			return err
+		}
+		h = k.MsgServiceRouter().Handler(xmsg)
+		if h == nil {
+			return fmt.Errorf("no handler for %T", xmsg)
+		}
+		_, err := h(ctx, xmsg)
+		return err
 	case "Jail":
 		// what x/slashing does for downtime: StakingKeeper.Jail(consAddr). The validator keeps its voting power until the
 		// next dogfood epoch end; from now on CalculateUSDValueForStaker returns 0 for every staker of the operator.
